@@ -150,9 +150,13 @@ class Builder:
         """Returns object path; raises CalledProcessError on compile failure."""
         flags = self.base_flags + list(extra_flags)
         depjson = os.path.join(self.depdir, label.replace("/", "__") + ".json")
-        if os.path.exists(depjson):
+        # a variant that has no dependency list for this TU yet borrows the standard variant's: the include set does not depend
+        # on instrumentation / sanitizer flags, and the object key still contains the flags - a TU whose flags are those of the
+        # standard build (everything outside runtime/ in the instrumented variant) is then reused instead of compiled again
+        known = depjson if os.path.exists(depjson) else os.path.join(CACHE, "dep", "std", label.replace("/", "__") + ".json")
+        if os.path.exists(known):
             try:
-                deps = json.load(open(depjson))
+                deps = json.load(open(known))
                 if deps and not deps[0][:2] in ("R:", "V:", "A:"):
                     raise ValueError("old dependency format")
                 key = self.key_for(label, src, flags, deps)
